@@ -1,7 +1,7 @@
 """C18 - shapes stay inside the hull of their control points (structural part)."""
 import ast
 from ..model import norm, AnalysisError, walk_no_nested, params_of
-from ..poly import Poly, to_poly, NotPoly
+from ..poly import Poly, to_poly, NotPoly, range_bounds
 from .. import rules_axis as ra
 from .. import rules_layout as rl
 from .. import rules_state as rs
@@ -123,7 +123,7 @@ def ag7(m, run, rule='AG7.active-control-points'):
         sc = ra.scope_of(fi)
         ra.ax1_helper_calls(m, run, [fi])
         # slot calls through span_func: AX1-like direction uniformity
-        for c in [x for x in walk_no_nested(fi.node) if isinstance(x, ast.Call) and isinstance(x.func, ast.Name) and x.func.id == 'span_func']:
+        for c in [x for x in walk_no_nested(fi.node) if isinstance(x, ast.Call) and isinstance(x.func, ast.Name) and sc.api_origin(x.func) == 'find_span_func']:
             tags = set()
             for a in c.args[:3]:
                 tags |= sc.int_tags(a, c)
@@ -153,11 +153,13 @@ def ag7(m, run, rule='AG7.active-control-points'):
                 atoms = p.atoms()
                 loopvars = [a for a in atoms if a.isidentifier() and sc.reaching(a, x) and sc.reaching(a, x)[0][3] == 'loop']
                 def is_span(a):
-                    if a.startswith(('span_func(', 'helpers.find_span')):
+                    if a.startswith('helpers.find_span'):
                         return True
                     if a.isidentifier():
                         ds_ = sc.reaching(a, x)
-                        return len(ds_) == 1 and isinstance(ds_[0][1], ast.Call) and ('span' in norm(ds_[0][1].func))
+                        if len(ds_) == 1 and isinstance(ds_[0][1], ast.Call):
+                            f_ = ds_[0][1].func
+                            return norm(f_).startswith('helpers.find_span') or (isinstance(f_, ast.Name) and sc.api_origin(f_) == 'find_span_func')
                     return False
                 spans = [a for a in atoms if is_span(a)]
                 loopvars = [a for a in loopvars if a not in spans]
@@ -197,13 +199,14 @@ def ln1(m, run):
     if len(loops) == 1:
         lp = loops[0]
         acc = [s for s in lp.body if isinstance(s, ast.AugAssign) and isinstance(s.op, ast.Add) and isinstance(s.value, ast.Call) and norm(s.value.func).endswith('point_distance')]
-        if acc and isinstance(lp.iter, ast.Call) and norm(lp.iter.func) == 'range' and len(lp.iter.args) == 1:
+        rb0 = range_bounds(lp.iter)
+        if acc and rb0 is not None and rb0[0] == Poly.const(0):
             i = lp.target.id
             a0, a1 = acc[0].value.args
             sub = lambda e: to_poly(e.slice) if isinstance(e, ast.Subscript) else None
             try:
                 pa, pb = sub(a0), sub(a1)
-                n_ = to_poly(lp.iter.args[0], env=lambda nm: next((x.value for x in walk_no_nested(fi.node) if isinstance(x, ast.Assign) and isinstance(x.targets[0], ast.Name)
+                n_ = to_poly(lp.iter.args[-1], env=lambda nm: next((x.value for x in walk_no_nested(fi.node) if isinstance(x, ast.Assign) and isinstance(x.targets[0], ast.Name)
                                                                  and x.targets[0].id == nm.id), None))
                 same_arr = norm(a0.value) == norm(a1.value)
                 lenatoms = [a for a in n_.atoms() if a.startswith('len(')]
